@@ -130,6 +130,12 @@ def run(ctx):
                 ver_ops.append(("jws.ver", {"jws": tok, "jwk": a["jwk"], "_expect": True, "_why": why}))
                 if a["jwk"]["kty"] != "oct":
                     ver_ops.append(("jws.ver", {"jws": tok, "jwk": K.public(a["jwk"]), "_expect": True, "_why": why + " public half"}))
+                    # the public half as the library exports it from a key restricted to signing: key_ops ["verify"]
+                    ver_ops.append(("jws.ver", {"jws": tok, "jwk": dict(K.public(a["jwk"]), key_ops=["verify"]), "_expect": True,
+                                                "_why": why + " public half with key_ops [verify]"}))
+                    ver_ops.append(("jws.ver", {"jws": tok, "jwk": dict(K.public(a["jwk"]), use="sig"), "_expect": True, "_why": why + " public half with use sig"}))
+                else:
+                    ver_ops.append(("jws.ver", {"jws": tok, "jwk": dict(a["jwk"], key_ops=["verify"]), "_expect": True, "_why": why + " key restricted to verify"}))
                 h = G.merged_header(tok)
                 if not h or h.get("alg") != a["_alg"]:
                     ctx.pfails.append(("sig:alg-recorded", "%s recorded alg %s, used %s" % (side, h and h.get("alg"), a["_alg"]), op, strip(a), res))
